@@ -243,7 +243,15 @@ func checkStoredSetsReadOnly(r *Run, rule string, p *packages.Package, cg *CallG
 			if dup[construct] > 1 {
 				construct += "#" + itoa(dup[construct]) // the same call text more than once in one function
 			}
-			if d := a.origin(fn, sel.X, 0, map[types.Object]bool{}); d != "" {
+			recvExpr := sel.X
+			// the value the receiver variable holds here: when the statements before the call, in the same list, assign
+			// it unconditionally (`x = x.Clone(); x.Or(y)`), that assignment is what reaches the call
+			if id, ok := ast.Unparen(sel.X).(*ast.Ident); ok {
+				if rhs := reachingAssignment(p.TypesInfo, fd.Body, call, p.TypesInfo.Uses[id]); rhs != nil {
+					recvExpr = rhs
+				}
+			}
+			if d := a.origin(fn, recvExpr, 0, map[types.Object]bool{}); d != "" {
 				r.Fail(rule, construct, call.Pos(), "query-side function %s (reached from %s) calls %s on a stored bitmap (%s) without cloning it: the stored set changes and every later query on this container answers differently", fn.Name(), cg.PathTo(reach, fn), sel.Sel.Name, d)
 			} else {
 				r.Pass(rule, construct, call.Pos(), "receiver is fresh, cloned or a parameter")
@@ -436,4 +444,91 @@ func (a *storedSetAnalysis) localStructFieldOrigin(fn *types.Func, sel *ast.Sele
 		}
 	}
 	return "", true
+}
+
+// reachingAssignment: the right-hand side of the last statement that assigns obj before the statement containing use, in
+// the same statement list, provided no statement in between assigns obj in a nested position. nil when there is none.
+func reachingAssignment(info *types.Info, body *ast.BlockStmt, use ast.Node, obj types.Object) ast.Expr {
+	if obj == nil {
+		return nil
+	}
+	var list []ast.Stmt
+	idx := -1
+	var find func(l []ast.Stmt)
+	find = func(l []ast.Stmt) {
+		for i, st := range l {
+			if !nodeContains(st, use) {
+				continue
+			}
+			list, idx = l, i
+			// descend into the nested lists of st
+			ast.Inspect(st, func(n ast.Node) bool {
+				switch x := n.(type) {
+				case *ast.BlockStmt:
+					if x != nil && nodeContains(x, use) {
+						find(x.List)
+						return false
+					}
+				case *ast.CaseClause:
+					if nodeContains(x, use) {
+						for _, e := range x.List {
+							if nodeContains(e, use) {
+								return true
+							}
+						}
+						find(x.Body)
+						return false
+					}
+				case *ast.CommClause:
+					if nodeContains(x, use) {
+						find(x.Body)
+						return false
+					}
+				}
+				return true
+			})
+			return
+		}
+	}
+	find(body.List)
+	if idx < 0 {
+		return nil
+	}
+	assigns := func(n ast.Node) (top ast.Expr, nested bool) {
+		if as, ok := n.(*ast.AssignStmt); ok {
+			for i, l := range as.Lhs {
+				if id, ok := ast.Unparen(l).(*ast.Ident); ok && info.ObjectOf(id) == obj && len(as.Lhs) == len(as.Rhs) {
+					return as.Rhs[i], false
+				}
+			}
+		}
+		ast.Inspect(n, func(m ast.Node) bool {
+			switch x := m.(type) {
+			case *ast.AssignStmt:
+				for _, l := range x.Lhs {
+					if id, ok := ast.Unparen(l).(*ast.Ident); ok && info.ObjectOf(id) == obj {
+						nested = true
+					}
+				}
+			case *ast.UnaryExpr:
+				if x.Op == token.AND {
+					if id, ok := ast.Unparen(x.X).(*ast.Ident); ok && info.ObjectOf(id) == obj {
+						nested = true
+					}
+				}
+			}
+			return true
+		})
+		return nil, nested
+	}
+	for i := idx - 1; i >= 0; i-- {
+		rhs, nested := assigns(list[i])
+		if rhs != nil {
+			return rhs
+		}
+		if nested {
+			return nil
+		}
+	}
+	return nil
 }
